@@ -237,7 +237,20 @@ func cmdCheck(args []string) int {
 	var vacuous []*Obligation
 	coverCount := 0
 	{
-		cov := obls // every obligation's program point is checked for reachability (cheap in batch form)
+		var cov []*Obligation
+		if *tier == "thorough" {
+			cov = obls
+		} else {
+			// quick tier: one reachability check per basic block that has obligations
+			seen := map[string]bool{}
+			for _, o := range obls {
+				k := fmt.Sprintf("%s#%d", o.Func, o.Blk)
+				if !seen[k] {
+					seen[k] = true
+					cov = append(cov, o)
+				}
+			}
+		}
 		vacuous = runCovers(cov, header, timeout)
 		for _, o := range cov {
 			if o.Kind != "lemma" {
